@@ -274,7 +274,13 @@ func (s *Script) evalWithRoot(stack, data, root any) (any, Expr) {
 				if o, ok := sstack[i-1].(*op); ok && o.getLeft {
 					var x Expr
 					if x, ok = ev.(Expr); ok {
-						ev = x.Get(v)
+						dv := v
+						if 0 < len(x) {
+							if _, isRoot := x[0].(Root); isRoot {
+								dv = root
+							}
+						}
+						ev = x.Get(dv)
 					} else {
 						ev = nil
 					}
